@@ -34,8 +34,10 @@ SRC = {
     "f5": "def f5(a, b, c, d, e):\n    return uf_call('F5', a, b, c, d, e)",
     "f3tuple": "def f3tuple(a, b, c):\n    return uf_call('G1', a, b, c), uf_call('G2', c, b, a)",
     "f3dict": "def f3dict(c, a, *, b):\n    return {'u': uf_call('G1', a, b, c), 'f': uf_call('G3', b, c)}",
+    # a leaf with its own trailing dimension (vector-valued output): mapped axes must still come first
+    "f3vec": "def f3vec(a, b, c):\n    return {'s': uf_call('G1', a, b, c), 'v': jnp.stack([uf_call('G2', c, b, a), uf_call('G3', b, c), uf_call('G1', c, c, a)])}",
 }
-PARAMS = {"f4": "abcd", "f4kw": "abcd", "f3allkw": "abc", "f5": "abcde", "f3tuple": "abc", "f3dict": "abc"}
+PARAMS = {"f4": "abcd", "f4kw": "abcd", "f3allkw": "abc", "f5": "abcde", "f3tuple": "abc", "f3dict": "abc", "f3vec": "abc"}
 LENS = {"a": 2, "b": 3, "c": 2, "d": 3, "e": 2}
 
 
@@ -45,7 +47,7 @@ def units(tier):
     for fn in SRC:
         out.append((f"productmap[{fn}]", "u_productmap", {"fn": fn, "kmax": kmax}))
         out.append((f"vmap_1d[{fn}]", "u_vmap1d", {"fn": fn}))
-    for fn in ("f4", "f4kw", "f5", "f3dict"):
+    for fn in ("f4", "f4kw", "f5", "f3dict", "f3vec"):
         out.append((f"spacemap[{fn}]", "u_spacemap", {"fn": fn}))
     out.append(("rejections", "u_reject", {}))
     out.append(("crosshair[functools wrappers]", "u_crosshair", {"timeout": 60 if tier == "quick" else 180}))
@@ -53,7 +55,9 @@ def units(tier):
 
 
 def mkfun(fn):
-    ns = {"uf_call": sj.uf_call}
+    import jax.numpy as jnp
+
+    ns = {"uf_call": sj.uf_call, "jnp": jnp}
     exec(SRC[fn], ns)
     return ns[fn]
 
@@ -69,7 +73,7 @@ def mkconc(fn):
             acc = acc * 1.0 + (13.0 ** (i + 1)) * a
         return acc
 
-    ns = {"uf_call": uf_call}
+    ns = {"uf_call": uf_call, "jnp": jnp}
     exec(SRC[fn], ns)
     return ns[fn]
 
@@ -92,15 +96,42 @@ def expected_term(fn, argvals):
         return (U("G1", v["a"], v["b"], v["c"]), U("G2", v["c"], v["b"], v["a"]))
     if fn == "f3dict":
         return {"u": U("G1", v["a"], v["b"], v["c"]), "f": U("G3", v["b"], v["c"])}
+    if fn == "f3vec":
+        return {"s": U("G1", v["a"], v["b"], v["c"]), "v": [U("G2", v["c"], v["b"], v["a"]), U("G3", v["b"], v["c"]), U("G1", v["c"], v["c"], v["a"])]}
     raise KeyError(fn)
 
 
+class VecLeaf(list):
+    """expected components of a leaf with a trailing dimension"""
+
+
 def leaves(x):
+    """[(key, leaf)]; a python list as dict value stands for a vector-valued leaf"""
     if isinstance(x, dict):
-        return [(k, x[k]) for k in sorted(x)]
+        return [(k, VecLeaf(x[k]) if isinstance(x[k], list) else x[k]) for k in sorted(x)]
     if isinstance(x, (tuple, list)):
         return list(enumerate(x))
     return [(None, x)]
+
+
+def leaf_at(leaf_array_terms, idx, expected_leaf):
+    """pairs (got term, expected term) for the entry idx of a mapped output leaf"""
+    if isinstance(expected_leaf, VecLeaf):
+        return [(leaf_array_terms[tuple(idx) + (k,)], e) for k, e in enumerate(expected_leaf)]
+    return [(leaf_array_terms[tuple(idx)], expected_leaf)]
+
+
+def conc_expected(fn, sc, key):
+    """expected concrete leaf (scalar or VecLeaf) of the separating function at scalar arguments"""
+    out = mkconc(fn)(**sc)
+    val = dict(leaves(out))[key] if not isinstance(out, dict) else out[key]
+    if np.ndim(val) == 1:
+        return VecLeaf([float(x) for x in np.asarray(val)])
+    return val
+
+
+def leaf_shape(shape, expected_leaf):
+    return tuple(shape) + ((len(expected_leaf),) if isinstance(expected_leaf, VecLeaf) else ())
 
 
 def sym_inputs(S, names, mapped, lens=LENS):
@@ -160,24 +191,26 @@ def u_productmap(rec, fn, kmax):
                 ok = True
                 for key, arr in leaves(got):
                     arr = np.asarray(arr)
-                    if arr.shape != shape:
-                        return {"what": "productmap output has wrong shape", "observed": list(arr.shape), "expected": list(shape), "order": list(order)}
                     for idx in np.ndindex(*shape):
                         sc = {n: (vals[f"{n}_{idx[order.index(n)]}"] if n in order else vals[n + "s"]) for n in names}
-                        e = dict(leaves(mkconc(fn)(**sc)))[key]
-                        if not close(arr[idx], e):
-                            return {"what": "productmap entry differs from nested loops", "observed": float(arr[idx]), "expected": float(e), "order": list(order), "index": list(idx), "leaf": str(key)}
+                        e = conc_expected(fn, sc, key)
+                        if arr.shape != leaf_shape(shape, e):
+                            return {"what": "productmap output has wrong shape", "observed": list(arr.shape), "expected": list(leaf_shape(shape, e)), "order": list(order)}
+                        for g_, e_ in leaf_at(arr, idx, e):
+                            if not close(g_, e_):
+                                return {"what": "productmap entry differs from nested loops", "observed": float(g_), "expected": float(e_), "order": list(order), "index": list(idx), "leaf": str(key)}
                 return None
 
             for key, arr in leaves(out):
                 at = sj.terms(arr)
-                if at.shape != shape:
-                    rec.prove(f"shape[{order}]", False, [], replay=replay)
-                    continue
                 for idx in np.ndindex(*shape):
                     sc = {n: (sj.terms(ins[n])[idx[order.index(n)]] if n in order else sj.scalar(ins[n])) for n in names}
                     e = dict(leaves(expected_term(fn, sc)))[key]
-                    rec.prove(f"entry[{''.join(order)}]{idx}{'' if key is None else key}", sj.z(at[idx]) == e, [], replay=replay)
+                    if at.shape != leaf_shape(shape, e):
+                        rec.prove(f"shape[{order}]{'' if key is None else key}", False, [], replay=replay)
+                        break
+                    for k_, (g_, e_) in enumerate(leaf_at(at, idx, e)):
+                        rec.prove(f"entry[{''.join(order)}]{idx}{'' if key is None else key}#{k_}", sj.z(g_) == e_, [], replay=replay)
             for kk, v in S.trace.stats.items():
                 prims[kk] = prims.get(kk, 0) + v
     rec.primitives = prims
@@ -206,24 +239,26 @@ def u_vmap1d(rec, fn):
                 got = vmap_1d(mkconc(fn), list(sub))(**conc_inputs(vals, names, sub, L))
                 for key, arr in leaves(got):
                     arr = np.asarray(arr)
-                    if arr.shape != (3,):
-                        return {"what": "vmap_1d output has wrong shape", "observed": list(arr.shape), "expected": [3]}
                     for i in range(3):
                         sc = {n: (vals[f"{n}_{i}"] if n in sub else vals[n + "s"]) for n in names}
-                        e = dict(leaves(mkconc(fn)(**sc)))[key]
-                        if not close(arr[i], e):
-                            return {"what": "vmap_1d entry does not pair the i-th elements", "observed": float(arr[i]), "expected": float(e), "variables": list(sub), "index": i}
+                        e = conc_expected(fn, sc, key)
+                        if arr.shape != leaf_shape((3,), e):
+                            return {"what": "vmap_1d output has wrong shape", "observed": list(arr.shape), "expected": list(leaf_shape((3,), e))}
+                        for g_, e_ in leaf_at(arr, (i,), e):
+                            if not close(g_, e_):
+                                return {"what": "vmap_1d entry does not pair the i-th elements", "observed": float(g_), "expected": float(e_), "variables": list(sub), "index": i}
                 return None
 
             for key, arr in leaves(out):
                 at = sj.terms(arr)
-                if at.shape != (3,):
-                    rec.prove(f"shape[{sub}]", False, [], replay=replay)
-                    continue
                 for i in range(3):
                     sc = {n: (sj.terms(ins[n])[i] if n in sub else sj.scalar(ins[n])) for n in names}
                     e = dict(leaves(expected_term(fn, sc)))[key]
-                    rec.prove(f"joint[{''.join(sub)}][{i}]{'' if key is None else key}", sj.z(at[i]) == e, [], replay=replay)
+                    if at.shape != leaf_shape((3,), e):
+                        rec.prove(f"shape[{sub}]{'' if key is None else key}", False, [], replay=replay)
+                        break
+                    for k_, (g_, e_) in enumerate(leaf_at(at, (i,), e)):
+                        rec.prove(f"joint[{''.join(sub)}][{i}]{'' if key is None else key}#{k_}", sj.z(g_) == e_, [], replay=replay)
             for kk, v in S.trace.stats.items():
                 prims[kk] = prims.get(kk, 0) + v
     rec.primitives = prims
@@ -278,8 +313,6 @@ def u_spacemap(rec, fn):
                         got = spacemap(mkconc(fn), dense_vars=dense, sparse_vars=sparse, put_dense_first=pdf)(**conc_inputs(vals, names, chosen, L))
                         for key, arr in leaves(got):
                             arr = np.asarray(arr)
-                            if arr.shape != shape:
-                                return {"what": "spacemap output has wrong shape", "observed": list(arr.shape), "expected": list(shape), "dense": dense, "sparse": sparse, "put_dense_first": pdf}
                             for idx in np.ndindex(*shape):
                                 di, si = split(idx)
                                 sc = {}
@@ -290,17 +323,17 @@ def u_spacemap(rec, fn):
                                         sc[n] = vals[f"{n}_{si}"]
                                     else:
                                         sc[n] = vals[n + "s"]
-                                e = dict(leaves(mkconc(fn)(**sc)))[key]
-                                if not close(arr[idx], e):
-                                    return {"what": "spacemap entry differs from nested loops", "observed": float(arr[idx]), "expected": float(e), "dense": dense, "sparse": sparse, "put_dense_first": pdf, "index": list(idx)}
+                                e = conc_expected(fn, sc, key)
+                                if arr.shape != leaf_shape(shape, e):
+                                    return {"what": "spacemap output has wrong shape (mapped axes must come first)", "observed": list(arr.shape), "expected": list(leaf_shape(shape, e)), "dense": dense, "sparse": sparse, "put_dense_first": pdf}
+                                for g_, e_ in leaf_at(arr, idx, e):
+                                    if not close(g_, e_):
+                                        return {"what": "spacemap entry differs from nested loops", "observed": float(g_), "expected": float(e_), "dense": dense, "sparse": sparse, "put_dense_first": pdf, "index": list(idx)}
                         return None
 
                     tag = f"dense={''.join(dense)},sparse={''.join(sparse)},first={pdf}"
                     for key, arr in leaves(out):
                         at = sj.terms(arr)
-                        if at.shape != shape:
-                            rec.prove(f"shape[{tag}]", False, [], replay=replay)
-                            continue
                         for idx in np.ndindex(*shape):
                             di, si = split(idx)
                             sc = {}
@@ -312,7 +345,11 @@ def u_spacemap(rec, fn):
                                 else:
                                     sc[n] = sj.scalar(ins[n])
                             e = dict(leaves(expected_term(fn, sc)))[key]
-                            rec.prove(f"space[{tag}]{idx}{'' if key is None else key}", sj.z(at[idx]) == e, [], replay=replay)
+                            if at.shape != leaf_shape(shape, e):
+                                rec.prove(f"shape[{tag}]{'' if key is None else key}", False, [], replay=replay)
+                                break
+                            for k_, (g_, e_) in enumerate(leaf_at(at, idx, e)):
+                                rec.prove(f"space[{tag}]{idx}{'' if key is None else key}#{k_}", sj.z(g_) == e_, [], replay=replay)
                     for kk, v in S.trace.stats.items():
                         prims[kk] = prims.get(kk, 0) + v
     rec.primitives = prims
